@@ -1369,7 +1369,12 @@ class NPFacade(types.ModuleType):
 
     def argmax(self, a, axis=None):
         if axis is not None:
-            raise Unsupported('argmax with axis')
+            a = a if isinstance(a, _np.ndarray) else self.asarray(a)
+            moved = _np.moveaxis(a, axis, -1)
+            out = _np.empty(moved.shape[:-1], dtype=int)
+            for idx in _np.ndindex(*out.shape):
+                out[idx] = self.argmax(_np.asarray(moved[idx]))
+            return out
         a = a if isinstance(a, _np.ndarray) else self.asarray(a)
         best, bi = None, 0
         for i, v in enumerate(a.flat):
@@ -1380,7 +1385,12 @@ class NPFacade(types.ModuleType):
 
     def argmin(self, a, axis=None):
         if axis is not None:
-            raise Unsupported('argmin with axis')
+            a = a if isinstance(a, _np.ndarray) else self.asarray(a)
+            moved = _np.moveaxis(a, axis, -1)
+            out = _np.empty(moved.shape[:-1], dtype=int)
+            for idx in _np.ndindex(*out.shape):
+                out[idx] = self.argmin(_np.asarray(moved[idx]))
+            return out
         a = a if isinstance(a, _np.ndarray) else self.asarray(a)
         best, bi = None, 0
         for i, v in enumerate(a.flat):
